@@ -74,6 +74,13 @@ def build_segm(spec, ny, nx):
 
 def _inputs(case):
     data = build_image(case['image'])
+    if case.get('float32'):
+        # values representable in single precision; the catalog gets the
+        # float32 array (see _catalog), the reference stays in double
+        fin = np.isfinite(data)
+        if np.all(np.abs(data[fin]) < 1e37):
+            with np.errstate(over='ignore'):
+                data = data.astype('f4').astype(float)
     ny, nx = data.shape
     seg = build_segm(case['segments'], ny, nx)
     mask = build_mask(case.get('mask'), ny, nx)
@@ -102,6 +109,9 @@ def _catalog(case, data, seg, mask, error, bkg, conv, **extra):
     kw = dict(convolved_data=q(conv), error=q(error), mask=mask,
               background=q(bkg), localbkg_width=case.get('localbkg_width', 0))
     kw.update(extra)
+    if case.get('float32') and np.array_equal(data.astype('f4').astype(float), data,
+                                             equal_nan=True):
+        data = data.astype('f4')
     with warnings.catch_warnings():
         warnings.simplefilter('ignore')
         return SourceCatalog(q(data), SegmentationImage(seg.copy()), **kw)
@@ -270,7 +280,7 @@ def direct_cases(draw, allow_localbkg=False):
             'background': draw(st.sampled_from([None, 'map', 'scalar'])),
             'convolved': draw(st.sampled_from([None, None, 'same_nan', 'differs'])),
             'conv_special': [], 'quantity': draw(st.integers(0, 4)) == 0,
-            'localbkg_width': 0}
+            'localbkg_width': 0, 'float32': draw(st.integers(0, 3)) == 0}
     if case['convolved']:
         k = draw(st.integers(0, 3))
         case['conv_special'] = [[draw(st.integers(0, 40)), draw(st.integers(0, 40)),
